@@ -44,7 +44,8 @@ Definition run_tri (p : list point) (tb : tables) (srt : bool) (marked subs : li
        propagate_adaptive gen_split_blocks gen_split_submap (as_cls s) subs, map b2n F)
   end.
 
-Definition run_line (p : list point) (tb : tables) (marked subs : list nat) : out_t :=
+Definition run_line (p : list point) (tb : tables) (marked0 subs : list nat) : out_t :=
+  let marked := if gen_line_unique then dedup_sorted (sort_nat marked0) else marked0 in
   let r := line_adaptive p (tb_t tb) marked in
   (true, fst r, snd r,
    dedup_sorted (sort_nat (flat_map (gen_line_adapt_children (length (tb_t tb)) marked) subs)), []).
@@ -301,7 +302,7 @@ def run(ctx):
     if dyn_ok:
         rng = np_seed(ctx, 131)
         cases = corr_cases(ctx, rng, ctx.n(60, 240))
-        ctx.corr('adaptive', IMPORTS, 'run', 'out_eqb', cases, defs=DEFS, per_file=8 if ctx.quick() else 16,
+        ctx.corr('adaptive', IMPORTS, 'run', 'out_eqb', cases, defs=DEFS, per_file=(len(cases) + 3) // 4,
                  nontrivial=lambda r: len(r['t'][0]) >= 2 and 0 < len(r['marked']) < len(r['t'][0]))
         for c in cases[:3]:
             ctx.sample({'kind': c[2]['kind'], 'cells': len(c[2]['t'][0]), 'marked': c[2]['marked'], 'subdomain': c[2]['subdomain']})
